@@ -6,7 +6,8 @@ the current Ctx for a decision; `explore` re-executes the function once per feas
 execution is one path between cut points.  Python's own semantics (evaluation order, slicing, unpacking, closures,
 int/float mixing, exceptions) therefore come from CPython itself and are not re-implemented.
 
-Arithmetic: Python int -> Int, Python float -> Real (exact; a float literal denotes its decimal value).
+Arithmetic: Python int -> Int, Python float -> Real (a concrete double enters with its exact binary value; operations on
+symbolic reals are exact, i.e. rounding of symbolic arithmetic is not modelled).
 """
 import itertools
 from fractions import Fraction
@@ -302,7 +303,7 @@ def _frac(x):
     if isinstance(x, float):
         if x != x or x in (float("inf"), float("-inf")):
             raise Undecided("non-finite float constant in symbolic arithmetic")
-        return Fraction(repr(x))
+        return Fraction(x)          # the exact value of the double (computed floats and literals alike)
     if isinstance(x, Fraction):
         return x
     raise TypeError(type(x))
